@@ -19,7 +19,11 @@ def families():
     for a in (0.5, 1.0, 2.0, 3.0):
         for b in (0.5, 1.0, 2.0, 3.0):
             F.append(('beta', [a, b], lambda x, a=a, b=b: stats.beta.logpdf(x, a, b), (0.0, 1.0)))
-    for lb, ub in ((0.1, 10.0), (1.0, 2.0)):
+    for a, b in ((100.0, 80.0), (30.0, 150.0), (171.0, 2.0)):          # concentrated priors: shape parameters whose sum passes 172
+        F.append(('beta', [a, b], lambda x, a=a, b=b: stats.beta.logpdf(x, a, b), (0.0, 1.0)))
+    for a, b in ((150.0, 30.0), (60.0, 0.5)):
+        F.append(('gamma', [a, b], lambda x, a=a, b=b: stats.gamma.logpdf(x, a, scale=1.0 / b), (0.0, math.inf)))
+    for lb, ub in ((0.1, 10.0), (1.0, 2.0), (2.0, 5.0), (2.0, 3.0), (0.3, 0.7)):
         F.append(('log-uniform', [lb, ub], lambda x, lb=lb, ub=ub: stats.loguniform.logpdf(x, lb, ub), (lb, ub)))
     for mu, sd in ((0.0, 1.0), (1.0, 0.25)):
         F.append(('log-gaussian', [mu, sd], lambda x, mu=mu, sd=sd: stats.lognorm.logpdf(x, sd, scale=math.exp(mu)), (0.0, math.inf)))
@@ -47,6 +51,9 @@ def expected(fam, x, positive):
     name, pars, logpdf, support = fam
     if positive and x < 0:
         return None   # rejected
+    for edge in support:
+        if math.isfinite(edge) and x != edge and abs(x - edge) < 1e-12 * (1 + abs(edge)):
+            return 'underflow'   # within an ulp or two of a support edge (exp(log(edge)) in log space): the oracle's own rounding decides, not compared
     with np.errstate(all='ignore'):
         v = float(logpdf(x))
     if math.isfinite(v) and v < -690.0:
@@ -218,6 +225,69 @@ def cost(c, item):
     c.count('states')
 
 
+def cost_routes(c, item):
+    """the same prior behind the deterministic and the stochastic interface, with the parameters given in linear and in log space
+    (log_space_parameters=True: theta = log value, the prior is the prior of the value); the stochastic model is stream-independent
+    (its only reaction has no reactant molecules), and the data equal its constant trajectory, so the likelihood term is 0"""
+    import pandas as pd
+    from bioscrape.types import Model
+    from bioscrape.inference_setup import InferenceSetup
+    import bioscrape.random as br
+    fi, positive, sim_type, logspace = item
+    fam = families()[fi]
+    name, pars, logpdf, support = fam
+    t = np.linspace(0, 1, 5)
+    if sim_type == 'deterministic':
+        m = Model(species=['A'], reactions=[(['A'], [], 'massaction', {'k': 'kd'})], parameters=[('kd', 1.0)], initial_condition_dict={'A': 4.0})
+        df = pd.DataFrame({'time': t, 'A': 4.0 * np.exp(-1.0 * t)})
+        ic = {'A': 4.0}
+        like = lambda x: -math.sqrt(float(np.sum((4.0 * np.exp(-t) - 4.0 * np.exp(-x * t)) ** 2)))
+    else:
+        m = Model(species=['A', 'Z'], reactions=[(['Z'], [], 'massaction', {'k': 'kd'})], parameters=[('kd', 1.0)], initial_condition_dict={'A': 4.0, 'Z': 0.0})
+        df = pd.DataFrame({'time': t, 'A': np.full(len(t), 4.0)})       # data equal to the constant trajectory: the likelihood term is 0
+        ic = {'A': 4.0, 'Z': 0.0}
+        like = lambda x: 0.0
+    prior = {'kd': [name] + pars + (['positive'] if positive else [])}
+    kw = dict(N_simulations=2) if sim_type == 'stochastic' else {}
+    ins = InferenceSetup(Model=m, prior=prior, params_to_estimate=['kd'], exp_data=df, measurements=['A'], time_column='time',
+                         initial_conditions=ic, norm_order=2, sim_type=sim_type, **kw)
+    ins.setup_cost_function(log_space_parameters=logspace)
+    n_in = n_out = 0
+    for x in values(support):
+        if logspace and x <= 0:
+            continue
+        if sim_type == 'stochastic' and x < 0:
+            continue                   # a negative rate constant cannot be simulated stochastically
+        theta = math.log(x) if logspace else x
+        if logspace:
+            x = float(np.exp(theta))          # the value the interface sees (exp(log x) may differ from x in the last bit: support edges)
+        exp = expected(fam, x, positive)
+        c.count('evaluations'); c.count('transitions')
+        case = dict(family=name, params=pars, positive=positive, x=x, via='cost_routes', fi=fi, sim_type=sim_type, logspace=logspace)
+        key = 'C16/%s/%s%s/' % (name, sim_type, '-logspace' if logspace else '')
+        try:
+            br.py_seed_random(5)
+            with np.errstate(all='ignore'):
+                got = float(ins.cost_function([theta]))
+        except Exception as e:
+            c.violation(key + 'cost-exception', 'cost_function(%r) raised %r' % (theta, e), case)
+            continue
+        if exp == 'underflow':
+            continue
+        if exp is None:
+            n_out += 1
+            if got != -math.inf:
+                c.violation(key + 'cost-out-of-support', 'cost_function(theta=%r, value %r) = %r outside the support of %s%s (must be -inf)' % (theta, x, got, name, pars), case)
+        else:
+            n_in += 1
+            want = exp + like(x)
+            if not math.isfinite(got) or abs(got - want) > 1e-5 * (1 + abs(want)):
+                c.violation(key + 'cost-value', 'cost_function(theta=%r, value %r) = %r, log-density + likelihood = %r' % (theta, x, got, want), case)
+    c.count('states')
+    if n_in and n_out:
+        c.nontrivial(('routes', name, tuple(pars), positive, sim_type, logspace))
+
+
 def run(ctx):
     F = families()
     items = [(i, pos) for i in range(len(F)) for pos in (False, True)]
@@ -234,7 +304,10 @@ def run(ctx):
                 for pos in itertools.product((False, True), repeat=k):      # every flag pattern, parameter by parameter
                     cit.append((idxs, xs, list(pos)))
     pmap(combos, cit, ctx, nshards=64)
+    routes = [(i, pos, st_, lg) for i in range(len(F)) for pos in (False, True) for st_ in ('deterministic', 'stochastic') for lg in (False, True)
+              if not (st_ == 'deterministic' and not lg)]
     pmap(cost, items, ctx, nshards=32)
+    pmap(cost_routes, routes, ctx, nshards=64)
     # histories of priors under one parameter name: every ordered pair (thorough: and triples over a reduced menu)
     seqs = [(h, how) for h in itertools.permutations(range(len(F)), 2) for how in ('new-object', 'same-object')]
     red = [i for i, f in enumerate(F)][::3]
@@ -244,7 +317,7 @@ def run(ctx):
     ctx.bounds = dict(families=len(F), single_items=len(items), combinations=len(cit), prior_histories=len(seqs))
     ctx.rule = ('E2, exhaustive over the stated alphabets: 7 prior families x parameter alphabets (%d parameterisations) x with/without the '
                 'positive flag x values (9 interior points, support edges +-{0,1e-9,1e-3}, negative values, 0, values > 1), through '
-                'PIDInterface.check_prior and through InferenceSetup.cost_function; all combinations of 2..4 parameters from a 7-family menu '
+                'PIDInterface.check_prior and through InferenceSetup.cost_function (deterministic and stochastic interface, parameters in linear and in log space); all combinations of 2..4 parameters from a 7-family menu '
                 'x {inside, inside, negative} values x every per-parameter pattern of the positive flag; every ordered pair (thorough: triples over a third of the menu) of parameterisations evaluated one after the other under the same parameter name, on a new interface object or on the same object with its prior replaced. Oracle: scipy.stats logpdf summed over parameters where it is finite (1e-10), and a '
                 'non-finite log-prior / -inf cost where scipy gives -inf or +inf or the positive flag rejects. states = parameterisations; a '
                 'parameterisation is non-trivial when it has values inside and outside the support; each combination counts once.' % len(F))
@@ -253,6 +326,8 @@ def run(ctx):
 
 def replay(ctx, case):
     F = families()
+    if case.get('via') == 'cost_routes':
+        return cost_routes(ctx, (case['fi'], case['positive'], case['sim_type'], case['logspace']))
     if 'hist' in case:
         from ..core import Collector
         for h, how in case.get('before', []):
